@@ -95,8 +95,9 @@ func (h *Handler) spoofLoop(addr packet.Addr) {
 				Logger.Msg("hunt loop stop").Struct(addr).Int("repeat", nTimes).String("duration", time.Since(startTime).String()).Write()
 			}
 
-			// When hunt terminate normally, clear the arp table with announcement to real router mac.
-			if !closed {
+			// When the target was released, clear its arp table with announcement to real router mac
+			// (also when the handler was closed in the meantime: the target is poisoned and nobody else will undo it).
+			if !hunting {
 				// request will fix the ether src mac to host to prevent ethernet port disabling
 				if err := h.RequestRaw(addr.MAC, h.session.NICInfo.RouterAddr4, h.session.NICInfo.RouterAddr4); err != nil {
 					Logger.Msg("error send request packet").Struct(addr).Error(err).Write()
